@@ -513,7 +513,17 @@ func spec_walk(l *LALR1, q int, r int, k int) int { panic("spec") }
 // Digraph / Traverse (DeRemer-Pennello's SCC traversal) are covered by the bounded LR(1)-merge stand-in only
 //@ func Traverse
 //@ props C13
+//@ props_tagged_only C14 C03 C02
 //@ order_only
+// local steps of the strongly-connected-component bookkeeping (the traversal as a whole is covered by the bounded stand-in):
+// x is numbered with its stack depth before its successors are visited; every node popped with a finished component is
+// marked finished (N = MaxInt) - a stale number would make the result depend on the order in which nodes are visited -
+// and gets the set of the component's root
+//@ after_stmt [C14,C03,C02] "N[x] = d" N[x] == d && d == len(*S) && d >= 1
+//@ before_stmt [C14,C03,C02] "(*F)[top] = (*F)[x]" N[top] == MaxInt
+//@ before_stmt [C14,C03,C02] "if top == x {" (*F)[top] == (*F)[x]
+//@ before_stmt [C14,C03,C02] "N[x] = min(N[x], N[y])" true
+//@ before_stmt [C14,C03,C02] "(*F)[x] = Union((*F)[y], (*F)[x])" true
 //@ recursion_assumed Traverse calls itself only for nodes y with N[y] == 0 and marks x (N[x] = d > 0) first, so each node is entered once (standard argument for Tarjan-style traversals; not proved here)
 //@ loop 1: terminates_assumed pops the stack down to x, which was pushed at the start of this call and is still on the stack (stack discipline of the traversal; not proved here)
 
@@ -524,6 +534,7 @@ func spec_walk(l *LALR1, q int, r int, k int) int { panic("spec") }
 //@ ensures [C03] len(c) >= len(b) && (forall i int :: 0 <= i && i < len(b) ==> c[i] == b[i])
 //@ ensures [C03] forall v int :: inSet(c, len(c), v) <==> inSet(a, len(a), v) || inSet(b, len(b), v)
 //@ modifies nothing
+//@ allocates arrays
 //@ loop 0: invariant backing(c) == backing(b) || fresh(backing(c))
 //@ loop 0: invariant len(c) >= len(b) && (forall i int :: 0 <= i && i < len(b) ==> c[i] == b[i])
 //@ loop 0: invariant forall v int :: inSet(c, len(c), v) <==> inSet(a, idx0, v) || inSet(b, len(b), v)
